@@ -7,7 +7,8 @@
    there (lemmas all_ctors_guarded ... by vm_compute), which the mdtraj_* statements below combine. *)
 From Coq Require Import List String Bool Arith.
 Import ListNotations.
-Require Import MD.Overwrite.Model MD.Overwrite.Proofs MD.Gen.OverwritePrograms MD.Gen.OverwriteChecks MD.Overwrite.Instances.
+Require Import MD.Overwrite.Model MD.Overwrite.Proofs MD.Gen.OverwritePrograms MD.Gen.OverwriteChecks MD.Overwrite.Instances
+               MD.Overwrite.Sessions MD.Overwrite.SessionsProofs MD.Overwrite.SessionsInstances.
 
 (* mode 'w', force_overwrite=False, something exists at the path: the constructor raises and the node is
    what it was — for every accepted program, every node, every value of the unknown conditions *)
@@ -114,6 +115,141 @@ Theorem unguarded_program_modifies_refuted : exists n, n <> None /\
                    {| s_node := n; s_h := HNone |})) <> n.
 Proof. exact gro_unguarded_modifies. Qed.
 Print Assumptions unguarded_program_modifies_refuted.
+
+(* ---- the other ways a path is reached: mode 'a', unknown mode strings, the methods of an object opened for
+   reading, the registered load functions (Overwrite/Sessions.v) *)
+
+(* mode 'a', any force_overwrite, something exists at the path: the constructor leaves the node alone, and after
+   writing [new] and closing the old bytes are still there, at most with [new] behind them *)
+Theorem append_keeps_old : forall p, check_append p = true ->
+  forall unk fo c new,
+    let E := {| e_mode := MA; e_force := fo; e_unk := unk |} in
+    s_node (snd (run p E {| s_node := Some c; s_h := HNone |})) = Some c /\
+    (snd (open_write_close p E (Some c) new) = Some c \/
+     exists old, c = File old /\ snd (open_write_close p E (Some c) new) = Some (File (old ++ new))).
+Proof. exact append_keeps_old_node. Qed.
+Print Assumptions append_keeps_old.
+
+(* a mode string that is none of 'r', 'w', 'a': the constructor raises and the node is what it was *)
+Theorem bad_mode_refused : forall p, check_badmode p = true ->
+  forall unk fo n,
+    let E := {| e_mode := MOther; e_force := fo; e_unk := unk |} in
+    fst (run p E {| s_node := n; s_h := HNone |}) = Error /\
+    s_node (snd (run p E {| s_node := n; s_h := HNone |})) = n.
+Proof. exact bad_mode_refused_node. Qed.
+Print Assumptions bad_mode_refused.
+
+(* reading never alters a file: an object opened in mode 'r', then ANY sequence of calls of its methods' own
+   open() sites (each may fail), leaves the node untouched and never holds a handle that can write *)
+Theorem read_session_never_alters : forall ctor sites, check_session ctor sites = true ->
+  forall unk fo n calls, (forall e, In e calls -> In e sites) ->
+    let E := {| e_mode := MR; e_force := fo; e_unk := unk |} in
+    let s := session E calls (snd (run ctor E {| s_node := n; s_h := HNone |})) in
+    s_node s = n /\ not_writing (s_h s) = true.
+Proof. exact read_session_untouched. Qed.
+Print Assumptions read_session_never_alters.
+
+(* a load function all of whose constructor calls are mode-'r' calls of read-only constructors changes no path *)
+Theorem load_never_alters : forall p, check_load p = true ->
+  forall E base cur F q, snd (srun p E base cur F) q = F q.
+Proof. exact load_preserves_fs. Qed.
+Print Assumptions load_never_alters.
+
+(* Trajectory.save_*(mode='a'): every existing path keeps its old content as a prefix *)
+Theorem save_append_keeps_old : forall p, check_save_append p = true ->
+  forall E base cur F q, F q <> None -> extends (F q) (snd (srun p E base cur F) q).
+Proof. exact save_append_extends. Qed.
+Print Assumptions save_append_keeps_old.
+
+(* today's /repo *)
+Theorem mdtraj_constructors_append_keep_old : forall name p, In (name, p) ctors ->
+  forall unk fo c new,
+    let E := {| e_mode := MA; e_force := fo; e_unk := unk |} in
+    s_node (snd (run p E {| s_node := Some c; s_h := HNone |})) = Some c /\
+    (snd (open_write_close p E (Some c) new) = Some c \/
+     exists old, c = File old /\ snd (open_write_close p E (Some c) new) = Some (File (old ++ new))).
+Proof. exact mdtraj_ctors_append. Qed.
+Print Assumptions mdtraj_constructors_append_keep_old.
+
+Theorem mdtraj_constructors_refuse_unknown_modes : forall name p, In (name, p) ctors ->
+  forall unk fo n,
+    let E := {| e_mode := MOther; e_force := fo; e_unk := unk |} in
+    fst (run p E {| s_node := n; s_h := HNone |}) = Error /\
+    s_node (snd (run p E {| s_node := n; s_h := HNone |})) = n.
+Proof. exact mdtraj_ctors_badmode. Qed.
+Print Assumptions mdtraj_constructors_refuse_unknown_modes.
+
+Theorem mdtraj_read_sessions_never_alter : forall name ctor sites, In (name, ctor, sites) read_sessions ->
+  forall unk fo n calls, (forall e, In e calls -> In e sites) ->
+    let E := {| e_mode := MR; e_force := fo; e_unk := unk |} in
+    let s := session E calls (snd (run ctor E {| s_node := n; s_h := HNone |})) in
+    s_node s = n /\ not_writing (s_h s) = true.
+Proof. exact mdtraj_sessions. Qed.
+Print Assumptions mdtraj_read_sessions_never_alter.
+
+(* the registered load_* functions and md.open(path) with defaulted arguments *)
+Theorem mdtraj_loaders_never_alter : forall ext p, In (ext, p) (loaders ++ open_defaults) ->
+  forall E base cur F q, snd (srun p E base cur F) q = F q.
+Proof. exact mdtraj_loaders. Qed.
+Print Assumptions mdtraj_loaders_never_alter.
+
+Theorem mdtraj_save_hdf5_append_keeps_old : forall name p, In (name, p) append_savers ->
+  forall E base cur F q, F q <> None -> extends (F q) (snd (srun p E base cur F) q).
+Proof. exact mdtraj_append_savers. Qed.
+Print Assumptions mdtraj_save_hdf5_append_keeps_old.
+
+(* every file class and md.open default to mode 'r' (the signatures are re-read on every run) *)
+Theorem mdtraj_default_mode_is_read : forall name m, In (name, m) default_modes -> m = MR.
+Proof. exact mdtraj_default_modes. Qed.
+Print Assumptions mdtraj_default_mode_is_read.
+
+(* the new checkers reject programs that break these clauses, and the rejected programs really do *)
+Theorem session_checkers_reject_harmful_programs :
+  check_append truncating_appender = false /\
+  check_badmode late_mode_test = true /\ check_badmode open_anyway = false /\
+  check_session ctor_XYZ rewriting_seek = false /\
+  check_load writing_loader = false /\ check_save_append (SWith ctor_HDF5 MW FPass) = false.
+Proof. exact sessions_rejected_programs. Qed.
+Print Assumptions session_checkers_reject_harmful_programs.
+
+Theorem truncating_append_loses_bytes_refuted :
+  snd (open_write_close truncating_appender {| e_mode := MA; e_force := false; e_unk := fun _ => false |}
+                        (Some (File [1; 2])) [9]) = Some (File [9]).
+Proof. exact truncating_appender_loses_bytes. Qed.
+Print Assumptions truncating_append_loses_bytes_refuted.
+
+Theorem rewriting_seek_alters_refuted :
+  s_node (session {| e_mode := MR; e_force := true; e_unk := fun _ => false |} rewriting_seek
+                  (snd (run ctor_XYZ {| e_mode := MR; e_force := true; e_unk := fun _ => false |}
+                            {| s_node := Some (File [1; 2]); s_h := HNone |}))) = Some (File []).
+Proof. exact rewriting_seek_modifies. Qed.
+Print Assumptions rewriting_seek_alters_refuted.
+
+(* non-vacuity: HDF5 really appends in mode 'a', the text formats have method-level open sites, a loader exists *)
+Example session_hypotheses_satisfiable :
+  (exists unk, snd (open_write_close ctor_HDF5 {| e_mode := MA; e_force := false; e_unk := unk |}
+                                     (Some (File [1; 2])) [9]) = Some (File [1; 2; 9])) /\
+  check_append ctor_HDF5 = true /\ check_badmode ctor_Gro = true /\
+  sites_XYZ <> [] /\ check_session ctor_XYZ sites_XYZ = true /\
+  (exists p, In ("xtc"%string, p) loaders /\ check_load p = true) /\
+  (exists p, In ("save_hdf5"%string, p) append_savers).
+Proof.
+  split.
+  { (* the unknown conditions of the translated constructor (import checks, compression flags): one of them must
+       hold for the constructor to go on; try each single one *)
+    first [ exists (fun _ => false); vm_compute; reflexivity
+          | exists (fun i => Nat.eqb i 1); vm_compute; reflexivity
+          | exists (fun i => Nat.eqb i 2); vm_compute; reflexivity
+          | exists (fun i => Nat.eqb i 3); vm_compute; reflexivity
+          | exists (fun i => Nat.eqb i 4); vm_compute; reflexivity
+          | exists (fun i => Nat.eqb i 5); vm_compute; reflexivity
+          | exists (fun i => Nat.eqb i 6); vm_compute; reflexivity
+          | exists (fun _ => true); vm_compute; reflexivity ]. }
+  vm_compute. repeat split; try discriminate.
+  - eexists. split; [repeat (first [left; reflexivity | right]) | reflexivity].
+  - eexists. left; reflexivity.
+Qed.
+Print Assumptions session_hypotheses_satisfiable.
 
 (* non-vacuity of the hypotheses: the translated gro constructor and the numbered-restart saver are accepted,
    the saver has several targets, and an existing node is a node *)
